@@ -415,10 +415,20 @@ Fixpoint first_some {A B} (f : A -> option B) (l : list A) : option B :=
    exactly when they are equal under the A–Z fold after these two runes are replaced by k and s. *)
 Fixpoint fold_norm (s : bytes) : bytes :=
   match s with
-  | 226 :: 132 :: 170 :: r => 107 :: fold_norm r
-  | 197 :: 191 :: r => 115 :: fold_norm r
-  | x :: r => x :: fold_norm r
   | [] => []
+  | x :: r =>
+      match r with
+      | [] => [x]
+      | y :: r2 =>
+          if (x =? 197) && (y =? 191) then 115 :: fold_norm r2
+          else
+            match r2 with
+            | [] => x :: fold_norm r
+            | z :: r3 =>
+                if (x =? 226) && (y =? 132) && (z =? 170) then 107 :: fold_norm r3
+                else x :: fold_norm r
+            end
+      end
   end.
 
 Section Store.
